@@ -417,7 +417,7 @@ def run(ctx):
     for nm, B in structured():
         if len(B) <= 6 or ctx.thorough or nm in ('ring8', 'cube'):
             graphs.append(derive(ctx, nm, B))
-    for t in range(ctx.scale(28, 300)):
+    for t in range(ctx.scale(22, 300)):
         n = int(ctx.nprng.randint(2, 9))
         graphs.append(derive(ctx, 'er', random_skeleton(ctx, n)))
     nrand = ctx.scale(3, 6)
@@ -467,7 +467,7 @@ def run(ctx):
     # ------------------------------------------------------------ correspondence with the extracted term evaluator
     lines, pend = [], []
     cg = [g for g in graphs if g['n'] <= 7]
-    cg = cg[:ctx.scale(40, 200)]
+    cg = cg[:ctx.scale(34, 200)]
     for g in cg:
         for name, line, want, exact, case in corr_entries(bct, g):
             w, err = safe(want)
